@@ -374,149 +374,334 @@ func short(s string) string {
 }
 
 // ------------------------------------------------------------------ exploration
+//
+// Deviation-bounded enumeration. The default environment is the synchronous network:
+// at every slot the owner produces on its best tip and the block is delivered at once
+// to every other correct node. A deviation is one of
+//
+//	delay(s, v, i, r)  the v-th block produced at slot s is withheld from node i until the
+//	                   end of slot r (r in s+1..T) or for ever (r = 0): delay, reordering
+//	                   (it arrives after later blocks: orphans, forks), loss, partition
+//	byz(s, choice)     the Byzantine owner of slot s does not behave honestly: produces
+//	                   nothing, builds on another of the 3 highest known tips, lies about
+//	                   Confirms, or equivocates (two blocks in the slot)
+//	restart(i, s)      node i is restarted on its stores after slot s
+//
+// Every run with at most k deviations is executed to the end of the horizon, and the
+// invariants are evaluated after every single event (production, delivery, restart).
+
+type dev struct {
+	Kind string `json:"k"` // delay | byz | restart
+	S    int    `json:"s"`
+	V    int    `json:"v,omitempty"`
+	I    int    `json:"i,omitempty"`
+	R    int    `json:"r,omitempty"`
+	Ch   string `json:"ch,omitempty"`
+}
 
 type replay struct {
-	Cfg  cfg      `json:"cfg"`
-	Hist []string `json:"history"`
-	Ev   string   `json:"event"`
+	Cfg  cfg   `json:"cfg"`
+	Devs []dev `json:"deviations"`
 }
 
-func lastDeliverNodeOf(hist []string) int {
-	// deliveries after the last non-delivery event must go to non-decreasing node indices
-	last := 0
-	for _, e := range hist {
-		if e[0] == 'D' {
-			var bi, i int
-			fmt.Sscanf(e, "D%d.%d", &bi, &i)
-			last = i
-		} else {
-			last = 0
+// universe lists the deviations of a configuration (static: blocks are named by slot and variant).
+func universe(c cfg) []dev {
+	var u []dev
+	for s := 1; s <= c.T; s++ {
+		owner := s % c.N
+		vmax := 0
+		if owner == c.Byz {
+			vmax = 1
+			u = append(u, dev{Kind: "byz", S: s, Ch: "-"})
+			for a := 0; a < 3; a++ {
+				for m := 0; m < 3; m++ {
+					if a == 0 && m == 0 {
+						continue // the honest behaviour
+					}
+					u = append(u, dev{Kind: "byz", S: s, Ch: fmt.Sprintf("%d:%d", a, m)})
+				}
+				for b := a + 1; b < 3; b++ {
+					u = append(u, dev{Kind: "byz", S: s, Ch: fmt.Sprintf("%d:0+%d:0", a, b)})
+				}
+			}
 		}
-	}
-	return last
-}
-
-// runHistory replays hist and then ev; returns (violation, key of the successor, enabled events there, max LIB)
-func runHistory(c cfg, hist []string, ev string) (msg, key string, en []event, maxLib uint64, forked bool) {
-	w := newWorld(c)
-	defer w.close()
-	for _, e := range hist {
-		w.apply(event(e))
-	}
-	var pre []nodeObs
-	for _, n := range w.nodes {
-		if n == nil {
-			pre = append(pre, nodeObs{})
-		} else {
-			pre = append(pre, observe(n))
+		for v := 0; v <= vmax; v++ {
+			for i := 0; i < c.N; i++ {
+				if i == c.Byz || (i == owner && owner != c.Byz) {
+					continue
+				}
+				u = append(u, dev{Kind: "delay", S: s, V: v, I: i, R: 0})
+				for r := s + 1; r <= c.T; r++ {
+					u = append(u, dev{Kind: "delay", S: s, V: v, I: i, R: r})
+				}
+			}
 		}
-	}
-	if ev != "" {
-		w.apply(event(ev))
-	}
-	var post []nodeObs
-	for _, n := range w.nodes {
-		if n == nil {
-			post = append(post, nodeObs{})
-		} else {
-			o := observe(n)
-			post = append(post, o)
-			if o.libNo > maxLib {
-				maxLib = o.libNo
+		if c.Restarts > 0 {
+			for i := 0; i < c.N; i++ {
+				if i != c.Byz {
+					u = append(u, dev{Kind: "restart", S: s, I: i})
+				}
 			}
 		}
 	}
-	if ev != "" {
-		msg = w.check(event(ev), pre, post)
+	return u
+}
+
+func conflict(a, b dev) bool {
+	if a.Kind != b.Kind || a.S != b.S {
+		return false
 	}
-	full := append([]string{}, hist...)
-	if ev != "" {
-		full = append(full, ev)
+	switch a.Kind {
+	case "delay":
+		return a.V == b.V && a.I == b.I
+	case "byz":
+		return true
+	case "restart":
+		return a.I == b.I
 	}
-	ldn := lastDeliverNodeOf(full)
+	return false
+}
+
+type runResult struct {
+	msg     string
+	events  int
+	endKey  string
+	maxLib  uint64
+	forked  bool
+	vacuous bool // a deviation named a block that was never produced
+}
+
+// runDevs executes one run.
+func runDevs(c cfg, devs []dev) runResult {
+	w := newWorld(c)
+	defer w.close()
+	var res runResult
+	obsAll := func() []nodeObs {
+		var o []nodeObs
+		for _, n := range w.nodes {
+			if n == nil {
+				o = append(o, nodeObs{})
+			} else {
+				o = append(o, observe(n))
+			}
+		}
+		return o
+	}
+	step := func(e event) bool {
+		pre := obsAll()
+		w.apply(e)
+		post := obsAll()
+		res.events++
+		for _, o := range post {
+			if o.libNo > res.maxLib {
+				res.maxLib = o.libNo
+			}
+		}
+		if m := w.check(e, pre, post); m != "" {
+			res.msg = fmt.Sprintf("at event %s (slot %d): %s", e, w.slot, m)
+			return false
+		}
+		return true
+	}
+	find := func(kind string, s int) []dev {
+		var r []dev
+		for _, d := range devs {
+			if d.Kind == kind && d.S == s {
+				r = append(r, d)
+			}
+		}
+		return r
+	}
+	// pending[i] = blocks withheld from node i: block index -> release slot (0 = never)
+	type pend struct{ bi, r int }
+	pending := make([][]pend, c.N)
+	used := 0
+	for s := 1; s <= c.T; s++ {
+		before := len(w.blocks)
+		owner := s % c.N
+		if owner == c.Byz {
+			ch := "0:0"
+			if b := find("byz", s); len(b) > 0 {
+				ch = b[0].Ch
+				used++
+			}
+			// tips beyond the number of known blocks do not exist: the choice is vacuous
+			ok := true
+			for _, part := range strings.Split(ch, "+") {
+				var a, m int
+				if ch != "-" {
+					fmt.Sscanf(part, "%d:%d", &a, &m)
+					if a >= len(w.tips()) {
+						ok = false
+					}
+				}
+			}
+			if !ok {
+				res.vacuous = true
+				ch = "0:0"
+			}
+			if !step(event("B" + ch)) {
+				return res
+			}
+		} else {
+			if !step("T") {
+				return res
+			}
+		}
+		// deliveries of the blocks of this slot
+		for bi := before; bi < len(w.blocks); bi++ {
+			v := bi - before
+			for i := 0; i < c.N; i++ {
+				if i == c.Byz || (i == owner && owner != c.Byz) {
+					continue
+				}
+				rel := s
+				for _, d := range find("delay", s) {
+					if d.V == v && d.I == i {
+						rel = d.R
+						used++
+					}
+				}
+				if rel == s {
+					if !step(event(fmt.Sprintf("D%d.%d", bi, i))) {
+						return res
+					}
+				} else {
+					pending[i] = append(pending[i], pend{bi, rel})
+				}
+			}
+		}
+		// releases due at the end of this slot (in production order per node)
+		for i := 0; i < c.N; i++ {
+			var keep []pend
+			for _, pd := range pending[i] {
+				if pd.r == s {
+					if !step(event(fmt.Sprintf("D%d.%d", pd.bi, i))) {
+						return res
+					}
+				} else {
+					keep = append(keep, pd)
+				}
+			}
+			pending[i] = keep
+		}
+		for _, d := range find("restart", s) {
+			used++
+			if !step(event(fmt.Sprintf("R%d", d.I))) {
+				return res
+			}
+		}
+	}
+	if used < len(devs) {
+		res.vacuous = true // e.g. a delay of the second block of a slot without equivocation
+	}
 	seenH := map[uint64]bool{}
 	for _, b := range w.blocks {
 		if seenH[b.height] {
-			forked = true
+			res.forked = true
 		}
 		seenH[b.height] = true
 	}
-	return msg, w.key(ldn), w.enabled(ldn), maxLib, forked
+	res.endKey = w.key(0)
+	return res
 }
 
-func configs(tier string) []cfg {
-	// the Byzantine producer has index 1 so that it owns two slots (1 and 5) inside the horizon
+func configs(tier string) ([]cfg, int) {
+	// the Byzantine producer has index 1 so that it owns two slots inside the horizon
 	if tier == "thorough" {
-		return []cfg{{N: 3, Byz: -1, T: 6, Restarts: 1}, {N: 4, Byz: 1, T: 5, Restarts: 0}, {N: 4, Byz: -1, T: 6, Restarts: 0}}
+		return []cfg{{N: 3, Byz: -1, T: 7, Restarts: 1}, {N: 4, Byz: 1, T: 6, Restarts: 1}, {N: 4, Byz: -1, T: 7, Restarts: 1}}, 3
 	}
-	return []cfg{{N: 3, Byz: -1, T: 4, Restarts: 1}, {N: 4, Byz: 1, T: 3, Restarts: 0}}
+	return []cfg{{N: 3, Byz: -1, T: 6, Restarts: 1}, {N: 4, Byz: 1, T: 6, Restarts: 0}}, 2
 }
 
-func explore(ctx *xplor.Ctx, c cfg, shard, nshards int, seedDepth int) {
-	type item struct{ hist []string }
-	_, k0, en0, _, _ := runHistory(c, nil, "")
-	seen := map[string]bool{k0: true}
-	queue := []item{{nil}}
-	_ = en0
-	depth := 0
+func explore(ctx *xplor.Ctx, c cfg, k, shard, nshards int) {
+	u := universe(c)
 	limit, _ := strconv.Atoi(os.Getenv("VERIF_LIMIT"))
-	nproc := 0
-	for len(queue) > 0 {
-		if ctx.Expired() {
-			ctx.Note(fmt.Sprintf("deadline hit in %+v with %d states queued at depth %d", c, len(queue), depth))
+	idx := 0
+	done := 0
+	var rec func(start int, cur []dev)
+	stop := false
+	rec = func(start int, cur []dev) {
+		if stop {
 			return
 		}
-		it := queue[0]
-		queue = queue[1:]
-		if len(it.hist) > depth {
-			depth = len(it.hist)
-		}
-		// the frontier at seedDepth is partitioned over the workers
-		if len(it.hist) == seedDepth {
-			h := xplor.Hash(strings.Join(it.hist, " "))
-			if int(h%uint64(nshards)) != shard {
-				continue
-			}
-		}
-		_, _, en, _, _ := runHistory(c, it.hist, "")
-		if len(it.hist) == 0 {
-			en = en0
-		}
-		for _, e := range en {
-			if limit > 0 && nproc >= limit {
-				ctx.Incomplete("VERIF_LIMIT")
+		mine := idx%nshards == shard
+		idx++
+		if mine {
+			if ctx.Expired() {
+				ctx.Note(fmt.Sprintf("deadline hit in %+v", c))
+				stop = true
 				return
 			}
-			nproc++
-			msg, key, _, maxLib, forked := runHistory(c, it.hist, string(e))
-			counted := len(it.hist) >= seedDepth || shard == 0
-			if counted {
-				ctx.Trans(1)
-				ctx.Trace(1)
-				ctx.Eval(1)
-				ctx.Max("max_lib_height_reached", int64(maxLib))
-				if maxLib > 0 {
-					ctx.Count("transitions_with_lib_above_genesis", 1)
-				}
-				if forked && maxLib > 0 {
-					ctx.Count("transitions_with_fork_and_lib", 1)
+			if limit > 0 && done >= limit {
+				ctx.Incomplete("VERIF_LIMIT")
+				stop = true
+				return
+			}
+			done++
+			r := runDevs(c, cur)
+			ctx.Eval(1)
+			ctx.Trace(1)
+			ctx.Trans(int64(r.events))
+			ctx.Max("max_lib_height_reached", int64(r.maxLib))
+			if r.maxLib > 0 {
+				ctx.Count("runs_with_lib_above_genesis", 1)
+			}
+			if r.forked {
+				ctx.Count("runs_with_a_fork", 1)
+				if r.maxLib > 0 {
+					ctx.Count("runs_with_fork_and_lib", 1)
 				}
 			}
-			if msg != "" {
-				ctx.Violation("", fmt.Sprintf("%+v after %v event %s: %s", c, it.hist, e, msg), replay{c, it.hist, string(e)})
-				continue
+			if r.vacuous {
+				ctx.Count("runs_with_a_vacuous_deviation", 1)
 			}
-			if !seen[key] {
-				seen[key] = true
-				if counted {
+			ctx.Count(fmt.Sprintf("runs_with_%d_deviations", len(cur)), 1)
+			if r.msg != "" {
+				ctx.Violation("", fmt.Sprintf("%+v deviations %v: %s", c, devList(cur), r.msg), replay{c, cur})
+			} else if r.endKey != "" {
+				if ctx.Distinct(xplor.Hash(fmt.Sprint(c), r.endKey)) {
 					ctx.State(1)
-					ctx.Distinct(xplor.Hash(fmt.Sprint(c), key))
 				}
-				queue = append(queue, item{append(append([]string{}, it.hist...), string(e))})
 			}
 		}
+		if len(cur) == k {
+			return
+		}
+		for i := start; i < len(u); i++ {
+			bad := false
+			for _, d := range cur {
+				if conflict(d, u[i]) {
+					bad = true
+				}
+			}
+			if bad {
+				continue
+			}
+			rec(i+1, append(append([]dev{}, cur...), u[i]))
+		}
 	}
-	ctx.Max("max_bfs_depth", int64(depth))
+	rec(0, nil)
+	ctx.Max("max_deviation_universe", int64(len(u)))
+}
+
+func devList(ds []dev) string {
+	var p []string
+	for _, d := range ds {
+		switch d.Kind {
+		case "delay":
+			r := fmt.Sprint("until slot ", d.R)
+			if d.R == 0 {
+				r = "for ever"
+			}
+			p = append(p, fmt.Sprintf("block %d.%d withheld from node %d %s", d.S, d.V, d.I, r))
+		case "byz":
+			p = append(p, fmt.Sprintf("byzantine slot %d choice %s", d.S, d.Ch))
+		case "restart":
+			p = append(p, fmt.Sprintf("restart node %d after slot %d", d.I, d.S))
+		}
+	}
+	return "[" + strings.Join(p, "; ") + "]"
 }
 
 func run(ctx *xplor.Ctx) {
@@ -526,19 +711,19 @@ func run(ctx *xplor.Ctx) {
 		if err := json.Unmarshal(ctx.Replay, &r); err != nil {
 			panic(err)
 		}
-		msg, _, _, _, _ := runHistory(r.Cfg, r.Hist, r.Ev)
-		if msg != "" {
-			ctx.Violation("", fmt.Sprintf("%+v after %v event %s: %s", r.Cfg, r.Hist, r.Ev, msg), r)
+		res := runDevs(r.Cfg, r.Devs)
+		if res.msg != "" {
+			ctx.Violation("", fmt.Sprintf("%+v deviations %v: %s", r.Cfg, devList(r.Devs), res.msg), r)
 		}
 		return
 	}
-	cs := configs(ctx.Tier)
+	cs, k := configs(ctx.Tier)
 	// one Net (number of producers) per process: the shard picks its configuration
 	ci := ctx.Shard % len(cs)
-	explore(ctx, cs[ci], ctx.Shard/len(cs), ctx.NShards/len(cs), 3)
+	explore(ctx, cs[ci], k, ctx.Shard/len(cs), ctx.NShards/len(cs))
 	if ctx.Shard == 0 {
-		ctx.Sample(map[string]interface{}{"config": cs[0], "history": []string{"T", "D0.2", "T", "D1.0", "T", "D2.0", "D2.1", "T"},
-			"legend": "T = slot owner produces on its best tip and connects it; Db.i = deliver produced block b to node i; Ri = restart node i; Bx:m = Byzantine producer builds on tip x with confirms mode m"})
+		ctx.Sample(map[string]interface{}{"config": cs[0], "deviations": []dev{{Kind: "delay", S: 2, I: 0, R: 5}, {Kind: "restart", S: 4, I: 1}},
+			"meaning": "the block of slot 2 reaches node 0 only at the end of slot 5 (node 0 forks at slot 3); node 1 restarts after slot 4; everything else synchronous"})
 	}
 }
 
@@ -546,11 +731,12 @@ func main() {
 	xplor.Main(xplor.Check{
 		ID:    "C08",
 		Level: "model_checking",
-		Rule:  "explicit-state BFS over event histories of a simulated network of real nodes (ChainService + real dpos.Status per node on in-memory stores); events: tick (the slot owner produces on its own best tip with Confirms = blockNo - its last produced block number and connects the block; a Byzantine owner produces nothing, one block on any of the 3 highest known tips with Confirms in {honest,1,blockNo}, or two blocks in the same slot), deliver(block, node) for every block the node has not stored (arbitrary delay, reordering, loss), restart(node); deliveries to different nodes between two other events are explored in one canonical order (they commute); states merged by a digest of all nodes (stores, orphan pool, bad-block cache, complete DPoS status), slot and produced blocks. distinct_nontrivial = distinct states",
+		Rule:  "stateless exploration with iterative deviation bounding of a simulated network of real nodes (ChainService + real dpos.Status per node on in-memory stores): default = synchronous network (the slot owner produces on its own best tip with Confirms = blockNo - its last produced block number, connects the block, and it is delivered at once to every other correct node); deviations = withhold the block of slot s from node i until the end of slot r or for ever (delay, reordering, loss, partition), a Byzantine owner producing nothing / on another tip / with wrong Confirms / two blocks in its slot, restart of a node after a slot; every run with at most k deviations is executed to the horizon and the invariants are evaluated after every event. states = distinct final network states, transitions = events executed, traces_validated_against_impl = runs; distinct_nontrivial = distinct final states",
 		Assumptions: []string{
 			"block bodies are empty; producers below the bootstrap height are the genesis producers (no re-election in the explored horizon)",
 			"a correct producer builds only on its own node's best tip and connects its block at once (as BlockFactory does); timestamps are fixed past slot times, so the future-timestamp rule never fires",
 			"restart = a new ChainService + Status on the same stores (no crash in the middle of a write; that is C06)",
+			"withheld blocks released in the same slot reach a node in production order",
 		},
 		Shards: func(tier string) int {
 			if tier == "thorough" {
